@@ -41,7 +41,7 @@ CHECKS = {
     "C11": ("proof", "Lean theorems over Q: psi_free (for ANY psi with the digamma recurrence the KSG MI/CMI equal gamma-free harmonic-number forms), code_eq_spec (sort-whole-row/index-k/count-minus-one = k-th nearest OTHER sample / count of OTHER samples strictly inside, under tie-freeness, which is forced). KDE: definition = documented formula (thin), signed sums. Tie: exact rational value vs float result (1e-9) with near-tie filter; KDE Float evaluation of the same polymorphic definition vs sklearn-based implementation.",
             "digamma at integers = harmonic numbers (recurrence hypothesis; scipy trusted); sklearn KernelDensity bandwidth rules mirrored; float rounding by tolerance.",
             "Lean 4 proof + exact-rational brute-force evaluation"),
-    "C12": ("proof", "Lean theorems over R with Mathlib's singular values: the local correction is DEFINED mathematically (corrMath: ellipsoid count via the basis-free quadratic form z^T (Y^T Y)^-1 z <= 1, guarded log singular-value ratios) and geom_laws_real proves translation, rotation (unconditional), scaling (+ d log a, under guard-inactivity) and sample-order invariance of the whole estimator with no hypothesis about the correction; inEll_iff_svd_sum shows the SVD-based sum of the code equals the quadratic form for EVERY right singular basis; MI/CMI are the documented signed sums with clamp. Tie: independent reference evaluation of the published formula (own Jacobi SVD, no LAPACK) vs the real function at 1e-8; the four laws checked directly on the real function with the predicted deltas; neighbour/Y_i/Z_i seams vs the exact rational model; spectral tie: LAPACK's singular values vs exact symmetric polynomials (principal minors of Y^T Y) and every hyperellipsoid_check decision vs the exact Cramer quadratic form; distance matrices overwritten in place between calls.",
+    "C12": ("proof", "Lean theorems over R with Mathlib's singular values: the local correction is DEFINED mathematically (corrMath: ellipsoid count via the basis-free quadratic form z^T (Y^T Y)^-1 z <= 1, guarded log singular-value ratios) and geom_laws_real proves translation, rotation (unconditional), scaling (+ d log a, under guard-inactivity) and sample-order invariance of the whole estimator with no hypothesis about the correction; inEll_iff_svd_sum shows the SVD-based sum of the code equals the quadratic form for EVERY right singular basis; MI/CMI are the documented signed sums with clamp. Tie: independent reference evaluation of the published formula (own Jacobi SVD, no LAPACK) vs the real function at 1e-8; the four laws checked directly on the real function with the predicted deltas; neighbour/Y_i/Z_i seams vs the exact rational model; spectral tie: LAPACK's singular values vs exact symmetric polynomials (principal minors of Y^T Y) and every hyperellipsoid_check decision vs the exact Cramer quadratic form; distance matrices overwritten in place between calls. Since the repair 7d4df49 the rank decision on sigma_l is relative to sigma_0 and the scaling law needs the guard hypothesis on sigma_0 only (corrMath_scale_sigma0, geom_scale_svd_sigma0); ratioTermAbs_not_scale_invariant is the negative witness for the pre-fix absolute threshold.",
             "LAPACK's floating-point SVD = the mathematical SVD, and log/sqrt rounding, are outside the theorems (numerically tied). For k < d the Gram matrix is singular and the code's ellipsoid count is rounding noise: the mathematical model is not claimed faithful there and the laws are decided by the direct metamorphic check and the reference only.",
             "Lean 4 proof (Mathlib singular values) + exact spectral tie + independent reference evaluation + metamorphic laws"),
     "C13": ("proof", "Lean theorems for any ordered field and abstract pmf: loop_invariant/run_closed_form (the while loop equals the closed form), cont_mono/stop_index_mono (a vector call runs at least the terms of every scalar call), vector_is_scalar_plus_tail, tail_bound, elementwise_independent, zero-rate entries exactly 0, joint_def; negative witness for the pinned min rule. Tie: Float instance of the same definition + independent log-space reference vs poisson_entropy on a dense grid [0,500], tiny rates, mixed vectors/matrices; joint entropy exact.",
@@ -53,16 +53,16 @@ CHECKS = {
     "C15": ("proof", "Lean theorems: one row per edge in order with unchanged endpoints/attributes, header = base ++ supplied metadata in documented order for every subset of the 9 parameters, empty frame, PCMCI export lists symmetric links once. Column tables regenerated from the AST (obligation). Tie: random multigraphs (mixed labels, parallel edges, self-loops, missing attributes) x metadata subsets, cell-wise comparison.",
             "NetworkX edge iteration order and pandas DataFrame construction trusted.",
             "Lean 4 proof + AST-regenerated column tables + differential correspondence"),
-    "C16": ("proof", "Lean theorems: sub_edges (membership), partition (under unique triples), companion_entry (nK x nK, first block row = lag adjacencies, sub-diagonal identities, zeros elsewhere) proved for the code-shaped block-writing model, companion_empty. Tie: exact integer comparison on random multigraphs, exhaustive for <=2 nodes and lags {0,1,2}.",
+    "C16": ("proof", "Lean theorems: sub_edges (membership), partition (under unique triples), companion_entry (nK x nK, first block row = lag adjacencies, sub-diagonal identities, zeros elsewhere) proved for the code-shaped block-writing model, companion_empty. Tie: exact integer comparison on random multigraphs, exhaustive for <=2 nodes and lags {0,1,2}. Translator (every run): subnetwork's filter attribute, orientation, copied attributes and defaults, and companion_matrix's loop ranges and slice arithmetic are REGENERATED from the source and must be the model's (ObC16: decide / ring for all lags and sizes).",
             "NetworkX container semantics trusted; property restricted to unique triples and lags >= 0.",
             "Lean 4 proof + exhaustive small-scope correspondence"),
-    "C17": ("proof", "Lean theorems (all n, all binary zero-diagonal matrices, all polylines over Q): TPR=TP/(TP+FN), FPR=FP/(FP+TN) over off-diagonal pairs, ranges, identical=>(1,0), complement=>(0,1), AUC trapezoid in [0,1]; tied to core/stats.py by exact-vs-float correspondence, exhaustive for n<=3.",
+    "C17": ("proof", "Lean theorems (all n, all binary zero-diagonal matrices, all polylines over Q): TPR=TP/(TP+FN), FPR=FP/(FP+TN) over off-diagonal pairs, ranges, identical=>(1,0), complement=>(0,1), AUC trapezoid in [0,1]; tied to core/stats.py by exact-vs-float correspondence, exhaustive for n<=3. Translator (every run): Compute_TPR_FPR is REGENERATED from the source (straight-line NumPy subset -> Lean term over Q) and proved equal to the model's tprFpr for ALL n and ALL entry lists (ObC17: rfl / field arithmetic).",
             "Flattening glue and float rounding covered by the correspondence (1e-12), not by the theorems.",
             "Lean 4 proof over Q + exhaustive/random differential correspondence"),
-    "C18": ("proof", "Lean theorems: linear_in_eps, residual (X_t - A X_{t-1} = eps w_t), support on the transposed graph, radius_scaling for any eigen-pair, Poisson rate formula and floor. Tie: recording generator shim (every normal/uniform/Poisson draw and the rate argument of every rng.poisson call observed) replayed through the exact model; determinism and global-RNG checks.",
+    "C18": ("proof", "Lean theorems: linear_in_eps, residual (X_t - A X_{t-1} = eps w_t), support on the transposed graph, radius_scaling for any eigen-pair, Poisson rate formula and floor. Tie: recording generator shim (every normal/uniform/Poisson draw and the rate argument of every rng.poisson call observed) replayed through the exact model; determinism and global-RNG checks. Translator (every run): the rate handed to rng.poisson in the double loop is REGENERATED from the source and proved equal to the model's poissonRate with floor 0.1 for all lambda, coupling, adjacency, previous row and node (ObC18).",
             "Spectral radius is LAPACK's; conditional mean of NumPy's Poisson sampler trusted (+ pooled z-test, measurement).",
             "Lean 4 proof + recorded-draw replay through the exact model"),
-    "C19": ("proof", "Lean theorems: logistic_mem, step_mem, orbit_mem (induction over t, any n, any non-negative matrix with row sums <= 1), rowNormalise_ok; negative witness for the pre-fix update; the map logistic_map is REGENERATED from the source on every run and proved equal to the model's logistic for all rationals (ring). Tie: direct range check of every value + exact one-step replay of consecutive rows through the model; returned matrix vs model normalisation of the Erdos-Renyi adjacency.",
+    "C19": ("proof", "Lean theorems: logistic_mem, step_mem, orbit_mem (induction over t, any n, any non-negative matrix with row sums <= 1), rowNormalise_ok; negative witness for the pre-fix update; the map logistic_map is REGENERATED from the source on every run and proved equal to the model's logistic for all rationals (ring). Tie: direct range check of every value + exact one-step replay of consecutive rows through the model; returned matrix vs model normalisation of the Erdos-Renyi adjacency. The update statement of the time loop is also REGENERATED (symbolic matrix algebra over the source, transposes tracked) and must be the model's stepRow through the ROW-normalised matrix for all sigma, f and rows (ObC19b: ring).",
             "Theorems over exact rationals; rounding covered by the direct range check on the float output.",
             "Lean 4 invariant proof + one-step simulation check"),
     "C20": ("other", "Partial: Lean theorems seedOrder_perm (any community output), optimise_perm (every iteration budget, move and accept stream), equispaced distinct positions, normalisation ranges (no division by zero), cmap index, arc radius total. Tie: real optimiser replayed on its own recorded move stream; real plot_causal_network on random multigraphs x option combinations: returns (Figure, Axes), no exception, graph deep-equal before/after, positions = model positions, same seed same order.",
@@ -114,7 +114,7 @@ def main():
         ],
         "checks": checks,
         "not_applicable": na,
-        "notes": "See DESIGN.md. known_findings.json lists genuine defects (open/fixed; five fix: commits in /repo). Exit codes: 0 held, 1 VIOLATION, 2 infrastructure failure.",
+        "notes": "See DESIGN.md. known_findings.json lists genuine defects (open/fixed; six fix: commits in /repo). Exit codes: 0 held, 1 VIOLATION, 2 infrastructure failure.",
     }
     (VERIF / "MANIFEST.json").write_text(json.dumps(man, indent=1) + "\n")
     print("claimed:", [c["property_id"] for c in checks])
